@@ -117,8 +117,10 @@ func bigClass(n int) string {
 		return "257..65534"
 	case n <= 65536:
 		return fmt.Sprint(n)
+	case n < 1<<20:
+		return "65537..2^20-1"
 	}
-	return ">65536"
+	return ">=2^20"
 }
 
 func checkBig(ctx *pbt.Ctx, c Big) error {
@@ -184,7 +186,7 @@ func TestBig(t *testing.T) {
 			return c
 		},
 		Check:    checkBig,
-		EnumDesc: "inscription / OP_RETURN data / OP_FALSE OP_RETURN data / P2PKH+push with the data push of 75, 76, 255, 256, 65535, 65536 bytes x content type of 1, 75, 76 bytes (inscription) x tail push none / 76 / 65536 bytes x {whole, data push in each wider form, 1, 2, 3, 5 bytes dropped, cut inside the data push header}; bare multisig with n = 1, 15, 16, 17, 20 keys and m = 1, n",
+		EnumDesc: "inscription / OP_RETURN data / OP_FALSE OP_RETURN data / P2PKH+push with the data push of 75, 76, 255, 256, 65535, 65536 bytes x content type of 1, 75, 76 bytes (inscription) x tail push none / 76 / 65536 bytes x {whole, data push in each wider form, 1, 2, 3, 5 bytes dropped, cut inside the data push header}; the largest instances: data push of 2^17, 2^20-1, 2^20, 2^22 (quick: 2^17 and 2^20 without tail, 2^22 for one inscription only) bytes x content type 1 / 76 / 65536 x tail none / 65536, whole and one byte short; bare multisig with n = 1, 15, 16, 17, 20 keys and m = 1, n",
 		Enum: func(tier string, yield func(Big)) {
 			i := 0
 			y := func(c Big) {
@@ -226,6 +228,29 @@ func TestBig(t *testing.T) {
 								b.Drop = d
 								y(b)
 							}
+						}
+					}
+				}
+			}
+			// round 5: the largest instances - no element size limit exists after genesis
+			for _, kind := range []string{"inscription", "data", "false-data"} {
+				for _, dl := range []int{1 << 17, 1<<20 - 1, 1 << 20, 1 << 22} {
+					for _, ct := range []int{1, 76, 65536} {
+						if kind != "inscription" && ct != 1 {
+							continue
+						}
+						for _, tl := range []int{0, 65536} {
+							if tier != "thorough" && (dl == 1<<20-1 || (dl >= 1<<20 && tl > 0)) {
+								continue
+							}
+							if dl > 1<<20 && (tl > 0 || ct == 76 || (tier != "thorough" && (kind != "inscription" || ct != 1))) {
+								continue
+							}
+							base := Big{Kind: kind, CtLen: ct, DataLen: dl, TailLen: tl}
+							y(base)
+							b := base
+							b.Drop = 1
+							y(b)
 						}
 					}
 				}
